@@ -22,7 +22,7 @@ impl<'g> Cx<'g> {
             }
             syn::Expr::Group(p) => self.expr(&p.expr, exp, stmts),
             syn::Expr::Lit(l) => self.lit(&l.lit, exp, e.span()),
-            syn::Expr::Path(p) if p.qself.is_none() => self.path_expr(&p.path, exp, e.span()),
+            syn::Expr::Path(p) if p.qself.is_none() => self.path_expr(&p.path, exp, e.span(), stmts),
             syn::Expr::Reference(r) => {
                 if r.mutability.is_some() {
                     return self.bail(e.span(), "`&mut` expression is only supported as the argument of `std::mem::take`");
@@ -222,10 +222,14 @@ impl<'g> Cx<'g> {
         }
     }
 
-    fn path_expr(&mut self, p: &syn::Path, exp: Option<&Ty>, span: proc_macro2::Span) -> R<(String, Ty)> {
+    fn path_expr(&mut self, p: &syn::Path, exp: Option<&Ty>, span: proc_macro2::Span, stmts: &mut Vec<Stmt>) -> R<(String, Ty)> {
         let segs = path_strs(p);
         if segs.len() == 1 {
             let n = &segs[0];
+            if let Some(pl) = self.alias_of(n) {
+                let t = self.read(&pl, stmts)?;
+                return Ok((t, pl.ty()));
+            }
             if let Some(t) = self.lookup(n) {
                 return Ok((lean_ident(n), t));
             }
@@ -249,6 +253,12 @@ impl<'g> Cx<'g> {
                 return Ok((name, c.ty.clone()));
             }
             return self.bail(span, format!("unknown identifier `{}` (not a local, a selected constant or an enum variant)", n));
+        }
+        if segs.len() == 2 && segs[0] == "Duration" && segs[1] == "MAX" {
+            return Ok(("RustSem.Duration.MAX".into(), Ty::Dur));
+        }
+        if segs.len() == 2 && segs[0] == "Duration" && segs[1] == "ZERO" {
+            return Ok(("0".into(), Ty::Dur));
         }
         if segs.len() == 2 {
             if let Some(w) = int_width(&segs[0]) {
@@ -367,10 +377,21 @@ impl<'g> Cx<'g> {
                         _ => true,
                     },
                     (Ty::Bool, Ty::Bool) => matches!(op, Eq(_) | Ne(_)),
-                    _ => false,
+                    (Ty::Dur, Ty::Dur) => true,
+                    // `==` / `!=` on data whose `PartialEq` is structural equality of the representation:
+                    // byte arrays / vectors, table-mapped types, selected structs and enums
+                    (a, b) => {
+                        matches!(op, Eq(_) | Ne(_))
+                            && !a.has_unknown()
+                            && matches!(a, Ty::List(_, _) | Ty::Named(_) | Ty::Opaque(_) | Ty::Opt(_) | Ty::Tuple(_))
+                            && Self::same_shape(a, b)
+                    }
                 };
                 if !ok {
-                    return self.bail(span, "comparison is only supported between integers of the same type (or `==`/`!=` on bool)");
+                    return self.bail(
+                        span,
+                        "comparison is only supported between integers of the same type, Durations, `==`/`!=` on bool and on data of the same translated type",
+                    );
                 }
                 let sym = match op {
                     Eq(_) => "=",
@@ -447,6 +468,18 @@ impl<'g> Cx<'g> {
                 Ok((t, Ty::Int(w)))
             }
             _ => self.bail(span, "unsupported binary operator"),
+        }
+    }
+
+    /// same representation type (list kinds are irrelevant)
+    fn same_shape(a: &Ty, b: &Ty) -> bool {
+        match (a, b) {
+            (Ty::Int(x), Ty::Int(y)) => x == y,
+            (Ty::Bool, Ty::Bool) | (Ty::Unit, Ty::Unit) | (Ty::Dur, Ty::Dur) => true,
+            (Ty::List(x, _), Ty::List(y, _)) | (Ty::Opt(x), Ty::Opt(y)) => Self::same_shape(x, y),
+            (Ty::Tuple(x), Ty::Tuple(y)) => x.len() == y.len() && x.iter().zip(y.iter()).all(|(p, q)| Self::same_shape(p, q)),
+            (Ty::Named(x), Ty::Named(y)) | (Ty::Opaque(x), Ty::Opaque(y)) => x == y,
+            _ => false,
         }
     }
 
@@ -771,7 +804,10 @@ impl<'g> Cx<'g> {
                 _ => None,
             };
             let (t, ty) = self.expr(args[0], inner.as_ref(), stmts)?;
-            let ty = inner.unwrap_or(ty);
+            let ty = match inner {
+                Some(i) if !i.has_unknown() => i,
+                _ => ty,
+            };
             return Ok((format!("(some {})", t), Ty::Opt(Box::new(ty))));
         }
         if segs.len() == 1 && (last == "Ok" || last == "Err") {
@@ -890,11 +926,20 @@ impl<'g> Cx<'g> {
                 ("OctetsMut" | "Octets", "cap" | "off" | "len", 0) => Some(Ty::usize()),
                 ("OctetsMut" | "Octets", "is_empty", 0) => Some(Ty::Bool),
                 ("OctetsMut" | "Octets", "to_vec", 0) => Some(Ty::List(Box::new(Ty::u8()), ListKind::Vec)),
+                ("Range", "is_empty", 0) => Some(Ty::Bool),
                 _ => None,
             };
             if let Some(t) = pure_model {
                 stmts.extend(probe);
                 return Ok((format!("(RustSem.{}.{} {})", n, name, r), t));
+            }
+            if n == "Range" && name == "contains" && m.args.len() == 1 {
+                stmts.extend(probe);
+                let (x, xt) = self.expr(&m.args[0], Some(&Ty::Int(64)), stmts)?;
+                if !xt.is_int() {
+                    return self.bail(whole.span(), "`contains` needs an integer");
+                }
+                return Ok((format!("(RustSem.Range.contains {} {})", r, x), Ty::Bool));
             }
             self.tmp_reset(saved);
             return self.bind_call(whole, stmts);
